@@ -264,9 +264,12 @@ func (sim) Execute(env *core.Env, p *core.Plan) {
 		case "romut":
 			x.romut(ops[i])
 			i++
+		case "bgroup":
+			x.batchGroup(ops[i])
+			i++
 		default:
 			j := i + 1
-			for j < len(ops) && ops[j].T == ops[i].T && ops[j].K != "reopen" && ops[j].K != "romut" {
+			for j < len(ops) && ops[j].T == ops[i].T && ops[j].K != "reopen" && ops[j].K != "romut" && ops[j].K != "bgroup" {
 				j++
 			}
 			x.group(ops[i:j], i)
@@ -1579,4 +1582,80 @@ func apiName(a int64) string {
 
 func outName(o int64) string {
 	return [...]string{"commit", "error", "panic", "commit-failure", "write-failure"}[o]
+}
+
+// batchGroup: n callers use walletdb.Batch at the same time (started one
+// simulated millisecond apart, so that their arrival order is a function of
+// the plan; bbolt's batching window is 10 ms). Callers in mask return an error
+// after writing. Every caller that returned nil must find all of its writes
+// committed, the others none, and each failing caller gets its own error.
+func (x *exec) batchGroup(o core.Op) {
+	env := x.env
+	n, mask, seq := o.Arg(0), o.Arg(1), o.Arg(2)
+	if n < 2 {
+		n = 2
+	}
+	if n > 4 {
+		n = 4
+	}
+	env.Count("op.batch-group")
+	env.Eff()
+	errs := make([]error, n)
+	calls := make([]int, n)
+	done := 0
+	for i := 0; i < int(n); i++ {
+		i := i
+		go func() {
+			defer func() { done++ }()
+			time.Sleep(time.Duration(i) * time.Millisecond)
+			errs[i] = walletdb.Batch(x.db.Inner, func(tx walletdb.ReadWriteTx) error {
+				calls[i]++
+				b := tx.ReadWriteBucket([]byte(bgBucket))
+				if b == nil {
+					var err error
+					b, err = tx.CreateTopLevelBucket([]byte(bgBucket))
+					if err != nil {
+						return err
+					}
+				}
+				for _, kv := range batchCallerKeys(seq, i) {
+					if err := b.Put([]byte(kv[0]), []byte(kv[1])); err != nil {
+						return err
+					}
+				}
+				if mask&(1<<uint(i)) != 0 {
+					return errUser
+				}
+				return nil
+			})
+		}()
+	}
+	for w := 0; done < int(n) && w < 10000; w++ {
+		time.Sleep(time.Millisecond)
+	}
+	if done < int(n) {
+		x.fail("batch-group:caller-never-returned", "%d of %d concurrent Batch callers did not return within 10 simulated seconds", int(n)-done, n)
+		return
+	}
+	failing := 0
+	for i := 0; i < int(n); i++ {
+		if mask&(1<<uint(i)) != 0 {
+			failing++
+			if !errors.Is(errs[i], errUser) {
+				x.fail("batch-group:error-not-returned", "caller %d's function failed, Batch returned %v", i, errs[i])
+				return
+			}
+		} else if errs[i] != nil {
+			x.fail("batch-group:commit-failed", "caller %d's function returned nil, Batch returned %v", i, errs[i])
+			return
+		}
+		if calls[i] > 1 {
+			env.Count("probe.batch-function-rerun")
+		}
+	}
+	if failing > 0 && failing < int(n) {
+		env.Count("probe.batch-group-with-failing-sibling")
+	}
+	applyBatchGroup(x.committed, n, mask, seq)
+	x.verifyCommitted("batch-group:acknowledged-writes-lost-or-failed-writes-kept")
 }
